@@ -384,6 +384,82 @@ def concurrent_double(decisions, nthreads=2):
         w.close()
 
 
+def install_points_tables():
+    from dv import sched, simkernel as sk
+    mods = sk.load_node()
+    N = mods["node"].Node
+    return sched.install({N.route_answer: None})
+
+
+def submit_vs_table_change(decisions, other_event="loss"):
+    """The application submits the answer for peer1's request while, in the same instant, another peer's
+    connection is lost (its entries leave the tables) or another peer sends its first request (an entry is
+    added).  One schedule."""
+    from dv import sched
+    w = W.NodeWorld({"peers": [{"name": f"peer{i + 1}.example", "ip": [f"10.1.1.{i + 1}"]} for i in range(3)],
+                     "apps": [{"app_id": 4, "auth": True, "peers": [0, 1, 2], "kind": "basic", "handler": "hold"}],
+                     "node_timers": {"idle": 5000, "dwa": 50, "cer": 50, "cea": 50, "wakeup": 3}})
+    try:
+        w.start()
+        cs = [w.handshake_in(f"peer{i + 1}.example", auth=[4], ip=f"10.1.1.{i + 1}", hbh=0x100 + i) for i in range(3)]
+        w.feed_msg(cs[0], {"k": "REQ", "host": "peer1.example", "hbh": 0xa1, "e2e": 0x5101})
+        w.feed_msg(cs[1], {"k": "REQ", "host": "peer2.example", "hbh": 0xa1, "e2e": 0x5102})
+        # the answer is for peer2's request: its entry is not the first one the search comes across
+        rec_ = [r for r in w.requests_seen if r["e2e"] == 0x5102][0]
+        app = w.apps[0]
+        ans = app.generate_answer(rec_["msg"], result_code=2001)
+        w._fill_answer(ans, rec_["msg"])
+        ex = sched.Explorer(decisions)
+        sched.attach(w.k, ex)
+        if other_event == "loss":
+            cs[0].peer_closed = True
+            cs[0].remote.close()
+        else:
+            w.feed_msg(cs[2], {"k": "REQ", "host": "peer3.example", "hbh": 0xa1, "e2e": 0x5103}, run=False)
+        box = w.k.spawn(lambda: app.send_answer(ans), name="submitter")
+        ex.armed = True
+        w.k.run()
+        ex.armed = False
+        w.k.run()
+        problems = []
+        frames = [f for f in cs[1].refresh() if not f.is_request and f.code == 272 and f.h["hbh"] == 0xa1]
+        if box["exc"] is not None:
+            problems.append((f"submission-raised/{type(box['exc']).__name__}", repr(box["exc"])))
+        if len(frames) != 1:
+            problems.append(("answer-count", f"{len(frames)} answers on the requester's connection"))
+        for c in (cs[0], cs[2]):
+            if [f for f in c.refresh() if not f.is_request and f.code == 272 and f.h["e2e"] == 0x5102]:
+                problems.append(("answer-on-other-connection", f"conn {c.idx}"))
+        for sig, d in W.monitor_threads(w):
+            problems.append((f"thread-died/{sig}", d))
+        return ex.trace, problems
+    finally:
+        w.close()
+
+
+def schedule_part_tables(rec, shard, nshards, thorough):
+    from dv import sched
+    from dv.common import fp
+    install_points_tables()
+    for other in ("loss", "first-request"):
+        holder = {}
+
+        def run_one(dec, other=other):
+            tr, problems = submit_vs_table_change(dec, other)
+            holder["last"] = problems
+            return tr
+        n = 0
+        for dec, trace in sched.enumerate_schedules(run_one, 2 if thorough else 1, shard, nshards):
+            case = {"submit_vs_table_change": other, "schedule": {str(i): c for i, c in sorted(dec.items())}}
+            for k_, detail in holder["last"]:
+                rec.violation(f"C09/concurrent-table-change/{k_}", case, detail)
+            n += 1
+            rec.case(fp("sched-t", other, tuple(sorted(dec.items()))) if dec else None,
+                     ["schedule-exploration", "table-change:" + other, f"deviations:{len(dec)}"],
+                     sample=lambda: dict(case, choice_points=len(trace)))
+        rec.extra["table_change_schedules"] = rec.extra.get("table_change_schedules", 0) + n
+
+
 def schedule_part(rec, shard, nshards, thorough):
     from dv import sched
     from dv.common import fp
@@ -418,6 +494,7 @@ def shard_main(shard, nshards, tier, scale):
     thorough = tier == "thorough"
     shrunk = set()
     schedule_part(rec, shard, nshards, thorough)
+    schedule_part_tables(rec, shard, nshards, thorough)
     n = int((10000 if thorough else 800) * scale)
     req = st.tuples(st.just("REQ"), st.integers(0, 2), st.integers(0, 2))
     ev = st.one_of(req, req, req, st.tuples(st.just("REQ_RAISE"), st.integers(0, 2), st.integers(0, 2)),
@@ -481,7 +558,7 @@ def run(tier, scale=1.0):
     rec = Recorder(PID)
     for d in hyp.pool_run(shard_main, (tier, scale)):
         rec.merge(d)
-    required = {"schedule-exploration": 1, "deviations:2": 1, "npeers:3": 1, "app:threading": 1, "fault:eof": 1, "fault:reset": 1, "fault:dpr": 1,
+    required = {"table-change:loss": 1, "table-change:first-request": 1, "schedule-exploration": 1, "deviations:2": 1, "npeers:3": 1, "app:threading": 1, "fault:eof": 1, "fault:reset": 1, "fault:dpr": 1,
                 "fault:reconnect": 1, "fault:reconnect-overlap": 1, "lost-while-handling": 1, "watchdog-outstanding": 1, "dwa-after-dpr": 1, "handler-raised-then-submit": 1, "direct-send-message": 1, "out0:True": 1, "double-submission": 1, "equal-hbh-two-conns": 1, "reqs:4": 1}
     return finish(rec, tier=tier, level=LEVEL, rule=RULE, assumptions=ASSUME, t0=t0,
                   required_classes=required)
